@@ -68,6 +68,12 @@ def census(ctx):
         if mi is None:
             continue
         unlisted += frames.check_frame(mi, rel, shapes)
+    # a store through a local whose provenance the analysis cannot tell (the value of `d.setdefault(k, [])`, an entry of a
+    # journal ...) is not known to reach an input: the census cannot decide it, the before/after snapshots of the bounded part do
+    unknown = [h for h in unlisted if not h.definite]
+    unlisted = [h for h in unlisted if h.definite]
+    if unknown:
+        ctx.fun_info.append(dict(function="census C07.F1", unreached="stores through locals of unknown provenance, not decided by the census: %s" % "; ".join(unknown[:4])))
     out.append(Obligation("C07.F1 census: every escaping store of _assembly.py and core/_utils.py is within the frame", [],
                           tm.B(not unlisted), kind="F", text="stores outside the frame: %s" % unlisted,
                           meta=dict(function="census", clause="F1", detail=unlisted)))
